@@ -8,6 +8,7 @@ import (
 	"fmt"
 	"os"
 	"runtime"
+	"strconv"
 	"testing"
 	"time"
 
@@ -324,6 +325,11 @@ func hugeSequences(fns []string) []caseH2CSeq {
 			{Fn: fn2, Msg: hex.EncodeToString(bytes.Repeat([]byte{'m'}, 100)), Dst: d16}, {Fn: fn, Dst: d300, MsgLen: n / 2}, {Fn: fn, Msg: "00", Dst: d16}}, GC: i%2 == 1})
 	}
 	fn := fns[0]
+	if os.Getenv("VERIF_TIER") == "thorough" && strconv.IntSize == 64 {
+		// a message of 2^31 + 128 bytes (zeros, backed by an untouched mapping: no memory, two passes of SHA-256 over 2 GiB), then
+		// ordinary calls: lengths that do not fit 31 bits
+		out = append(out, caseH2CSeq{Steps: []h2cStep{{Fn: fn, Msg: "616263", Dst: d16}, {Fn: fn, Dst: d16, MsgLen: twoGiBPlus()}, {Fn: fn, Msg: "616263", Dst: d16}}})
+	}
 	if os.Getenv("VERIF_TIER") == "thorough" {
 		out = append(out, caseH2CSeq{Steps: []h2cStep{{Fn: fn, Msg: "616263", Dst: d300}, {Fn: fn, Msg: "616263", Dst: d16}, {Fn: fn, Msg: "616264", Dst: d16, SleepMs: 125000},
 			{Fn: fn, Msg: "616263", Dst: d300}, {Fn: fn, Msg: "616263", Dst: d16}}})
@@ -381,13 +387,25 @@ func (f failingReader) Read(p []byte) (int, error) {
 	return 0, errors.New("scripted entropy failure")
 }
 
+// twoGiBPlus is 2^31 + 128 where int has 64 bits (a run-time value: the constant does not fit a 32-bit int).
+func twoGiBPlus() int {
+	n := int64(1)<<31 + 128
+	if strconv.IntSize < 64 {
+		return 0
+	}
+	return int(n)
+}
+
+// hugeMsg: messages from this length on are zeros in an untouched mapping instead of a buffer.
+const hugeMsg = 1 << 30
+
 func runH2CSeq(c caseH2CSeq, o *gen.Obs) error {
 	maxD, maxM := 0, 0
 	for _, st := range c.Steps {
 		if l := len(st.Dst) / 2; l > maxD {
 			maxD = l
 		}
-		if l := max(len(st.Msg)/2, st.MsgLen); l > maxM {
+		if l := max(len(st.Msg)/2, st.MsgLen); l > maxM && st.MsgLen < hugeMsg {
 			maxM = l
 		}
 		o.ClassIf(st.MsgLen >= 1<<20, "huge-message")
@@ -396,7 +414,19 @@ func runH2CSeq(c caseH2CSeq, o *gen.Obs) error {
 	oversize, inplace, rejected, failedRandoms := 0, 0, 0, 0
 	prevLen := -1
 	for i, st := range c.Steps {
-		msgData, dstData := st.message(), gen.HexBytes(st.Dst)
+		var msgData []byte
+		if st.MsgLen >= hugeMsg {
+			var release func()
+			msgData, release = gen.Huge(int64(st.MsgLen), nil)
+			defer release()
+			if msgData == nil {
+				continue
+			}
+			o.Class("message>=2^30")
+		} else {
+			msgData = st.message()
+		}
+		dstData := gen.HexBytes(st.Dst)
 		if len(dstData) == 0 {
 			// the documented panic (empty DST), recovered by the caller, st.Rep times: what follows must be unaffected
 			for r := 0; r < max(1, st.Rep); r++ {
@@ -430,7 +460,11 @@ func runH2CSeq(c caseH2CSeq, o *gen.Obs) error {
 			time.Sleep(time.Duration(min(st.SleepMs, limit)) * time.Millisecond)
 		}
 		copy(dstBuf, dstData) // the caller re-uses its buffers: same backing array, new content
-		copy(msgBuf, msgData)
+		msgArg := msgData
+		if st.MsgLen < hugeMsg {
+			copy(msgBuf, msgData)
+			msgArg = msgBuf[:len(msgData)]
+		}
 		if len(dstData) > 255 {
 			oversize++
 		}
@@ -438,7 +472,7 @@ func runH2CSeq(c caseH2CSeq, o *gen.Obs) error {
 			inplace++
 		}
 		prevLen = len(dstData)
-		got, pnc := callHash(st.Fn, msgBuf[:len(msgData)], dstBuf[:len(dstData)])
+		got, pnc := callHash(st.Fn, msgArg, dstBuf[:len(dstData)])
 		if pnc != nil {
 			return gen.Fail("sequence/panic", "step %d: panic %v", i, pnc)
 		}
